@@ -1740,7 +1740,18 @@ func (e *CoreExtension) filterMerge(value interface{}, args ...interface{}) (int
 	// Handle merging arrays/slices
 	rv := reflect.ValueOf(value)
 	if rv.Kind() == reflect.Slice || rv.Kind() == reflect.Array {
-		result := reflect.MakeSlice(rv.Type(), rv.Len(), rv.Len())
+		// A typed slice can only take elements of its own type: merge into a
+		// generic list when an argument holds anything else
+		elemType := rv.Type().Elem()
+		for _, arg := range args {
+			argRv := reflect.ValueOf(arg)
+			if (argRv.Kind() == reflect.Slice || argRv.Kind() == reflect.Array) &&
+				!argRv.Type().Elem().AssignableTo(elemType) {
+				return e.functionMerge(append([]interface{}{value}, args...)...)
+			}
+		}
+
+		result := reflect.MakeSlice(reflect.SliceOf(elemType), rv.Len(), rv.Len())
 
 		// Copy original values
 		for i := 0; i < rv.Len(); i++ {
